@@ -1,0 +1,5 @@
+//go:build !verif
+
+package orderedmap
+
+func verifYield(string) {}
